@@ -180,6 +180,12 @@ def run(ck):
         oracle(all(x != 0 for x in m._d.values()), "zero-entry", "zero exponent survives ParserHelper *", {"a": str(da), "b": str(db)})
         p0 = a ** 0
         oracle(len(p0._d) == 0, "pow-zero", "ParserHelper ** 0 keeps entries", {"a": str(da)})
+        # none of these operations mutates its operands (scale included), nor returns one of them as the result
+        oracle((F(a.scale), fd(a)) == (s1, {k: v for k, v in da.items() if v != 0}) and (F(b.scale), fd(b)) == (s2, {k: v for k, v in db.items() if v != 0}),
+               "mutation-parserhelper", f"ParserHelper operand changed by * / ** : a is now ({a.scale}, {fd(a)}), b is now ({b.scale}, {fd(b)})",
+               {"a": [str(s1), str(da)], "b": [str(s2), str(db)]})
+        oracle(m is not a and m is not b, "alias-parserhelper", "ParserHelper a * b returned one of its operands",
+               {"a": [str(s1), str(da)], "b": [str(s2), str(db)]})
         ck.count("parserhelper")
 
     # ---------------------------------------------------------------- Unit / Quantity layers on a real registry
